@@ -13,9 +13,9 @@ import (
 )
 
 func init() {
-	register(&Rule{ID: "MAT-1", Props: []string{"C01", "C02", "C10", "C19"}, Floor: 5,
+	register(&Rule{ID: "MAT-1", Props: []string{"C01", "C02", "C10", "C19", "C11"}, Floor: 5,
 		Doc: "the argument vector is immutable during backtracking: no element store, copy destination or append base is a []string that is not freshly made in the same function", Run: mat1})
-	register(&Rule{ID: "MAT-2", Props: []string{"C02", "C09", "C13", "C15"}, Floor: 3,
+	register(&Rule{ID: "MAT-2", Props: []string{"C02", "C09", "C13", "C15", "C10", "C19"}, Floor: 3,
 		Doc: "every string recorded into the context is a sub-slice of a command-line token or the literal \"true\"; the positional matcher records exactly args[0] and returns args[1:]", Run: mat2})
 	register(&Rule{ID: "MAT-3", Props: []string{"C01", "C09"}, Floor: 4,
 		Doc: "every matcher consults the options-ended flag", Run: mat3})
@@ -27,7 +27,7 @@ func init() {
 		Doc: "the group matcher excludes an env-backed option only after a match that recorded no value for it", Run: mat6})
 	register(&Rule{ID: "MAT-7", Props: []string{"C10", "C11", "C02", "C01"}, Floor: 6,
 		Doc: "a foreign occurrence is skipped over exactly the tokens an own occurrence of that form consumes; an own match reports the number of tokens it dropped", Run: mat7})
-	register(&Rule{ID: "MAT-8", Props: []string{"C10", "C19"}, Floor: 3,
+	register(&Rule{ID: "MAT-8", Props: []string{"C10", "C19", "C01", "C02"}, Floor: 3,
 		Doc: "sibling guards: own option only; empty '=' value is no match; separate value starting with '-' is no match; a flag (IsBool of the looked-up option) records \"true\"", Run: mat8})
 	register(&Rule{ID: "MAT-11", Props: []string{"C11", "C01"}, Floor: 4,
 		Doc: "group retry: (false, input) if the first try fails, else try again on each new vector until a try fails, returning the last vector", Run: mat11})
@@ -1372,6 +1372,19 @@ func mat11(c *Ctx) {
 }
 
 func mat12(c *Ctx) {
+	// every other function of the matcher, automaton and root packages that reads its vector parameter
+	swept := map[*ssa.Function]bool{}
+	for _, name := range []string{"opt.Match", "opt.matchShortOpt", "opt.matchLongOpt", "options.try"} {
+		swept[c.fnOpt("internal/matcher", name)] = true
+	}
+	for _, pkg := range []string{"internal/matcher", "internal/fsm"} {
+		for _, fn := range c.pkgFuncsDeep(pkg) {
+			if !swept[fn] && fn.Synthetic == "" {
+				swept[fn] = true
+				c.vectorBounds(fn)
+			}
+		}
+	}
 	for _, name := range []string{"opt.Match", "opt.matchShortOpt", "opt.matchLongOpt", "options.try"} {
 		fn := c.fnOpt("internal/matcher", name)
 		if fn == nil {
@@ -1715,38 +1728,92 @@ func notDashPrefixedAt(fn *ssa.Function, v ssa.Value, b *ssa.BasicBlock) bool {
 	return !ir.Reach(fn.Blocks[0], nil, cut)[b]
 }
 
-// vectorBounds: every element read args[e] and every re-slice args[e:] of the argument vector in fn is
-// within bounds: from the branch outcomes that dominate it (and, for the scan helpers, from the caller's
-// loop condition idx < len(args)) the inequality len(args) - e - 1 >= 0 (resp. len(args) - e >= 0)
-// follows by linear arithmetic over len(args) and the int parameters.
+// vectorBounds: every element read v[e] and every re-slice v[a:b] of a []string whose length is known
+// (the vector parameter, a re-slice of it, a vector rebuilt by the helpers) is within bounds: the
+// inequality len(v) - e - 1 >= 0 (resp. len(v) - a >= 0, len(v) - b >= 0) follows by linear arithmetic
+// over len(<vector parameter>) and the int parameters from (a) the branch outcomes that dominate the
+// access, (b) earlier accesses that dominate it (had they been out of range, execution would not have
+// got here), or, failing that, (c) the same inequality translated to every call site of the function
+// and proved there in the same way (two levels up at most). make([]string, n) needs n >= 0.
 func (c *Ctx) vectorBounds(fn *ssa.Function) {
-	var args *ssa.Parameter
+	hasVec := false
 	for _, p := range fn.Params {
 		if isStringSlice(p.Type()) {
-			args = p
+			hasVec = true
 		}
 	}
-	if args == nil {
+	if !hasVec {
 		return
 	}
+	ir.Instrs(fn, func(in ssa.Instruction) {
+		report := func(goal lin, ok bool, what string) {
+			key := fmt.Sprintf("%s:bounds@%s", Q(fn), relLine(c, fn, in.Pos()))
+			if !ok {
+				c.Undecided(key, in.Pos(), "index expression not linear")
+				return
+			}
+			c.Check(c.proveGE0(fn, in, goal, 2), key, in.Pos(), what+" is within the vector by the dominating length tests", what+" is not covered by a dominating test of the vector's length (index out of range)")
+		}
+		env := map[ssa.Value]lin{}
+		vl := func(a ssa.Value) (lin, bool) { return c.vecLenIn(a, env, 2) }
+		switch x := in.(type) {
+		case *ssa.IndexAddr:
+			if !isStringSlice(x.X.Type()) {
+				return
+			}
+			if ir.NonNegativeIndex(x.Index) && isLoopIndexOver(x.Index, x.X) {
+				return // the loop condition bounds it
+			}
+			L, okL := vl(x.X)
+			e, okE := linOf(x.Index, env, vl)
+			if !okL {
+				return // a vector whose length the model does not follow (not the argument vector)
+			}
+			report(L.add(e, -1).add(linConst(1), -1), okE, "the element read")
+		case *ssa.Slice:
+			if !isStringSlice(x.X.Type()) {
+				return
+			}
+			L, okL := vl(x.X)
+			if !okL {
+				return
+			}
+			if x.Low != nil {
+				e, okE := linOf(x.Low, env, vl)
+				report(L.add(e, -1), okE, "the re-slice")
+			}
+			if x.High != nil {
+				e, okE := linOf(x.High, env, vl)
+				report(L.add(e, -1), okE, "the re-slice")
+			}
+		case *ssa.MakeSlice:
+			if !isStringSlice(x.Type()) {
+				return
+			}
+			e, okE := linOf(x.Len, env, vl)
+			report(e, okE, "the length of the new vector")
+		}
+	})
+}
+
+// boundsFacts: inequalities e >= 0 known when control reaches `at` in fn.
+func (c *Ctx) boundsFacts(fn *ssa.Function, at ssa.Instruction) []lin {
 	env := map[ssa.Value]lin{}
 	vl := func(a ssa.Value) (lin, bool) { return c.vecLenIn(a, env, 2) }
-	L := lin{t: map[linKey]int64{{args, true}: 1}}
-	// facts e >= 0 from a branch outcome; neqs collects the differences known to be non-zero
-	var neqs []lin
-	factsOf := func(v ssa.Value, want bool) []lin {
+	m1 := linConst(-1)
+	var facts, neqs []lin
+	factsOf := func(v ssa.Value, want bool) {
 		bo, ok := v.(*ssa.BinOp)
 		if !ok {
-			return nil
+			return
 		}
 		x, okx := linOf(bo.X, env, vl)
 		y, oky := linOf(bo.Y, env, vl)
 		if !okx || !oky {
-			return nil
+			return
 		}
 		xy := x.add(y, -1) // x - y
 		yx := y.add(x, -1)
-		m1 := linConst(-1)
 		op := bo.Op
 		if !want {
 			switch op {
@@ -1762,140 +1829,163 @@ func (c *Ctx) vectorBounds(fn *ssa.Function) {
 				op = token.NEQ
 			case token.NEQ:
 				op = token.EQL
+			default:
+				return
 			}
 		}
 		switch op {
 		case token.LSS:
-			return []lin{yx.add(m1, 1)}
+			facts = append(facts, yx.add(m1, 1))
 		case token.LEQ:
-			return []lin{yx}
+			facts = append(facts, yx)
 		case token.GTR:
-			return []lin{xy.add(m1, 1)}
+			facts = append(facts, xy.add(m1, 1))
 		case token.GEQ:
-			return []lin{xy}
+			facts = append(facts, xy)
 		case token.EQL:
-			return []lin{xy, yx}
+			facts = append(facts, xy, yx)
 		case token.NEQ:
-			// a length that is not 0 is at least 1
-			if k, isK := y.isConst(); isK && k == 0 {
-				if lc, isCall := bo.X.(*ssa.Call); isCall {
-					if bi, isB := lc.Call.Value.(*ssa.Builtin); isB && bi.Name() == "len" {
-						return []lin{x.add(m1, 1)}
-					}
-				}
-			}
 			neqs = append(neqs, xy)
 		}
-		return nil
 	}
-	// precondition from the callers: idx < len(args) at every call
-	var pre []lin
-	var idxParam *ssa.Parameter
-	for _, p := range fn.Params {
-		if b, ok := p.Type().Underlying().(*types.Basic); ok && b.Kind() == types.Int {
-			idxParam = p
+	for _, cd := range ir.DominatingConds(at.Block()) {
+		factsOf(cd.V, cd.Want)
+	}
+	// earlier accesses that dominate `at`
+	ir.Instrs(fn, func(in ssa.Instruction) {
+		if in == at {
+			return
 		}
-	}
-	if idxParam != nil {
-		all, n := true, 0
-		for _, caller := range c.pkgFuncsDeep("internal/matcher") {
-			for _, call := range ir.Calls(caller) {
-				cv, ok := call.(*ssa.Call)
-				if !ok || ir.Static(cv) != fn {
-					continue
-				}
-				n++
-				// positions of args and idx among the call's arguments
-				var av, iv ssa.Value
-				for i, p := range fn.Params {
-					if i < len(cv.Call.Args) {
-						if p == args {
-							av = cv.Call.Args[i]
-						}
-						if p == idxParam {
-							iv = cv.Call.Args[i]
-						}
+		dom := in.Block() == at.Block() && ir.IndexIn(in) < ir.IndexIn(at) || in.Block() != at.Block() && in.Block().Dominates(at.Block())
+		if !dom {
+			return
+		}
+		switch x := in.(type) {
+		case *ssa.IndexAddr:
+			if isStringSlice(x.X.Type()) {
+				if L, ok := vl(x.X); ok {
+					if e, okE := linOf(x.Index, env, vl); okE {
+						facts = append(facts, L.add(e, -1).add(m1, 1), e)
 					}
 				}
-				okCall := false
-				for _, cd := range ir.DominatingConds(cv.Block()) {
-					bo, isBo := cd.V.(*ssa.BinOp)
-					if !isBo {
-						continue
+			}
+		case *ssa.Slice:
+			if isStringSlice(x.X.Type()) && x.Low != nil && x.High == nil {
+				if L, ok := vl(x.X); ok {
+					if e, okE := linOf(x.Low, env, vl); okE {
+						facts = append(facts, L.add(e, -1), e)
 					}
-					isLenOf := func(v ssa.Value) bool {
-						lc, isCall := v.(*ssa.Call)
-						if !isCall {
-							return false
-						}
-						bi, isB := lc.Call.Value.(*ssa.Builtin)
-						return isB && bi.Name() == "len" && lc.Call.Args[0] == av
-					}
-					if (bo.Op == token.LSS && cd.Want && bo.X == iv && isLenOf(bo.Y)) || (bo.Op == token.GEQ && !cd.Want && bo.X == iv && isLenOf(bo.Y)) ||
-						(bo.Op == token.GTR && cd.Want && bo.Y == iv && isLenOf(bo.X)) {
-						okCall = true
-					}
-				}
-				if !okCall {
-					all = false
 				}
 			}
 		}
-		if all && n > 0 {
-			I := lin{t: map[linKey]int64{{idxParam, false}: 1}}
-			pre = append(pre, L.add(I, -1).add(linConst(1), -1)) // L - idx - 1 >= 0
+	})
+	// a length is never negative
+	for _, p := range fn.Params {
+		if isStringSlice(p.Type()) {
+			facts = append(facts, lin{t: map[linKey]int64{{p, true}: 1}})
 		}
 	}
-	implies := func(goal lin, facts []lin) bool {
-		if k, isK := goal.isConst(); isK && k >= 0 {
+	// integers: d != 0 and d >= 0 give d >= 1
+	for _, d := range neqs {
+		neg := lin{}.add(d, -1)
+		if linImplies(d, facts) {
+			facts = append(facts, d.add(linConst(1), -1))
+		} else if linImplies(neg, facts) {
+			facts = append(facts, neg.add(linConst(1), -1))
+		}
+	}
+	return facts
+}
+
+func linImplies(goal lin, facts []lin) bool {
+	if k, isK := goal.isConst(); isK {
+		return k >= 0
+	}
+	for _, f := range facts {
+		d := goal.add(f, -1)
+		if k, isK := d.isConst(); isK && k >= 0 {
 			return true
 		}
-		for _, f := range facts {
-			d := goal.add(f, -1)
+	}
+	// two facts: goal = f1 + f2 + k, k >= 0
+	for i, f1 := range facts {
+		for _, f2 := range facts[i:] {
+			d := goal.add(f1, -1).add(f2, -1)
 			if k, isK := d.isConst(); isK && k >= 0 {
 				return true
 			}
 		}
+	}
+	return false
+}
+
+// proveGE0: goal >= 0 holds whenever control reaches `at` in fn.
+func (c *Ctx) proveGE0(fn *ssa.Function, at ssa.Instruction, goal lin, depth int) bool {
+	if linImplies(goal, c.boundsFacts(fn, at)) {
+		return true
+	}
+	if depth == 0 || fn.Parent() != nil {
 		return false
 	}
-	check := func(in ssa.Instruction, idx ssa.Value, slack int64, what string) {
-		e, ok := linOf(idx, env, vl)
-		key := fmt.Sprintf("%s:bounds@%s", Q(fn), relLine(c, fn, in.Pos()))
-		if !ok {
-			c.Undecided(key, in.Pos(), "index expression not linear")
-			return
+	// translate the goal to every call site: all its terms must be parameters of fn
+	for k := range goal.t {
+		if _, isP := k.v.(*ssa.Parameter); !isP {
+			return false
 		}
-		goal := L.add(e, -1).add(linConst(slack), -1)
-		facts := append([]lin(nil), pre...)
-		neqs = nil
-		for _, cd := range ir.DominatingConds(in.Block()) {
-			facts = append(facts, factsOf(cd.V, cd.Want)...)
-		}
-		// integers: d != 0 and d >= 0 give d >= 1
-		for _, d := range neqs {
-			neg := lin{}.add(d, -1)
-			if implies(d, facts) {
-				facts = append(facts, d.add(linConst(1), -1))
-			} else if implies(neg, facts) {
-				facts = append(facts, neg.add(linConst(1), -1))
-			}
-		}
-		// the lower bound: e >= 0 from e = idx (+k), idx a loop/scan index >= 0 is assumed for parameters
-		c.Check(implies(goal, facts), key, in.Pos(), what+" is within the vector by the dominating length tests", what+" is not covered by a dominating test of the vector's length (index out of range)")
 	}
-	ir.Instrs(fn, func(in ssa.Instruction) {
-		switch x := in.(type) {
-		case *ssa.IndexAddr:
-			if x.X == ssa.Value(args) {
-				if ir.NonNegativeIndex(x.Index) && isLoopIndexOver(x.Index, x.X) {
-					return // the loop condition bounds it
+	n := 0
+	for _, pkg := range []string{"internal/matcher", "internal/fsm", "internal/parser", ""} {
+		for _, caller := range c.pkgFuncsDeep(pkg) {
+			escapes := false
+			ir.Instrs(caller, func(in ssa.Instruction) {
+				// the function used as a value (method value, stored in a table): callers unknown
+				for _, op := range in.Operands(nil) {
+					if *op == ssa.Value(fn) {
+						if call, isCall := in.(ssa.CallInstruction); !isCall || call.Common().Value != ssa.Value(fn) {
+							escapes = true
+						}
+					}
 				}
-				check(x, x.Index, 1, "the element read")
+			})
+			if escapes {
+				return false
 			}
-		case *ssa.Slice:
-			if x.X == ssa.Value(args) && x.Low != nil {
-				check(x, x.Low, 0, "the re-slice")
+			for _, call := range ir.Calls(caller) {
+				cv, ok := call.(*ssa.Call)
+				if !ok || ir.Static(cv) != fn || cv.Call.IsInvoke() {
+					continue
+				}
+				n++
+				env := map[ssa.Value]lin{}
+				vl := func(a ssa.Value) (lin, bool) { return c.vecLenIn(a, env, 2) }
+				g := linConst(goal.c)
+				for k, coef := range goal.t {
+					idx := -1
+					for i, p := range fn.Params {
+						if p == k.v {
+							idx = i
+						}
+					}
+					if idx < 0 || idx >= len(cv.Call.Args) {
+						return false
+					}
+					var term lin
+					var okT bool
+					if k.isLen {
+						term, okT = vl(cv.Call.Args[idx])
+					} else {
+						term, okT = linOf(cv.Call.Args[idx], env, vl)
+					}
+					if !okT {
+						return false
+					}
+					g = g.add(term, coef)
+				}
+				if !c.proveGE0(caller, cv, g, depth-1) {
+					return false
+				}
 			}
 		}
-	})
+	}
+	return n > 0
 }
